@@ -15,8 +15,8 @@ import (
 func init() {
 	register(&Property{
 		ID:        "C44",
-		Patterns:  []string{"./sql/variables"},
-		Technique: "constant-table extraction from the system-variable registry literals (go/types + go/constant): key/name/type-name agreement, default folded against the type constructor's domain, ValueFunction result kind; key-normalisation discipline of the folded-name variable maps: reaching-definition analysis of every map key over go/ssa (phis, helper parameters through all static call sites, closures)",
+		Patterns:  []string{"./sql/variables", "./sql/rowexec"},
+		Technique: "scope-preservation of SET executors (receiver access-path agreement of all SystemVariableScope.SetValue calls + absence of fixed-scope stores, read from the SetValue implementations, in the executor and its same-package callees); constant-table extraction from the system-variable registry literals (go/types + go/constant): key/name/type-name agreement, default folded against the type constructor's domain, ValueFunction result kind; key-normalisation discipline of the folded-name variable maps: reaching-definition analysis of every map key over go/ssa (phis, helper parameters through all static call sites, closures)",
 		Explanation: "The system-variable registry is the pair of map literals systemVars / mariadbSystemVars (sql/variables). Lookups fold the requested name to lower case and index the " +
 			"maps by key, while values are stored under GetName(); every type is built by a types.NewSystem*Type(name, domain...) constructor whose Convert validates SET values and renders " +
 			"SELECT @@var. Decided for every entry: (N1) map key == Name, the key is lower-case and is not declared in both maps (otherwise the variable is unreachable or its value slot is missing); " +
@@ -29,12 +29,19 @@ func init() {
 			"strings.ToLower result as key is a folded-name map (today: globalSystemVariables.sysVarVals, the registries systemVars/mariadbSystemVars, BaseSession.systemVars and storedProcParams, UserVars.userVars); every read, comma-ok read, " +
 			"store and delete of such a map in the loaded packages uses a key that is, on all reaching definitions, a strings.ToLower result, a lower-case constant, a key ranged out of a folded-name map, a parameter of an unexported " +
 			"function all of whose static call sites pass such a key, or GetName() of an entry ranged out of a registry literal that N1 proved folded and that is never stored into at run time; otherwise the value is stored or looked up " +
-			"under a spelling no other access uses (SET GLOBAL Max_Connections lost, SELECT @@Autocommit unknown).",
+			"under a spelling no other access uses (SET GLOBAL Max_Connections lost, SELECT @@Autocommit unknown). " +
+			"(S1) scope preservation of SET: every function of the loaded packages that executes SET through a scope object — i.e. calls SystemVariableScope.SetValue (today rowexec.setSystemVar: the primary write and the eight derived " +
+			"character_set_*/collation_* writes) — performs all its scope writes on one and the same receiver path (the Scope field of the variable being set, local aliases resolved, not reassigned in the function), and neither its body nor " +
+			"a same-package helper it calls writes a variable through a fixed-scope store; the fixed-scope stores are read from the implementations of SetValue (the module methods that receive its name parameter: " +
+			"Session.SetSessionVariable, SystemVariableRegistry.SetGlobal, PersistableSession.PersistGlobal/RemovePersistedGlobal, and concrete methods implementing them), allowed only under an if/switch testing that scope path.",
 		NotCovered: "SET validation of arbitrary run-time values (the Convert functions themselves), session/global visibility beyond the key discipline, folded-name maps that do not hold variables (listed in a note: collations, character sets, " +
-			"external procedures, index-builder ranges, database provider), maps reached other than by loading a field or package variable, status variables (never folded: MySQL status names are used verbatim), scope semantics (MysqlSystemVariable.SetValue only " +
+			"external procedures, index-builder ranges, database provider), maps reached other than by loading a field or package variable, status variables (never folded: MySQL status names are used verbatim), which scope object the planner attaches to a statement (planbuilder) and what a guarded fixed-scope store tests (S1 accepts any test mentioning the scope path), helpers in other packages and interface calls reached from an executor, scope semantics (MysqlSystemVariable.SetValue only " +
 			"distinguishes global-only and session-only, every other scope constant behaves like BOTH), user variables, status variables (their Default/Type pairs are counters by convention), " +
 			"entries whose Type is a general SQL type (listed as info)",
-		Run: func(c *Ctx) { runC44(c, "sql/variables", "sql", "sql/types", "MysqlSystemVariable", 349, 1, 20) },
+		Run: func(c *Ctx) {
+			runC44(c, "sql/variables", "sql", "sql/types", "MysqlSystemVariable", 349, 1, 20)
+			runC44Scope(c, c44sCfg{sqlRel: "sql", scopeIface: "SystemVariableScope", setMethod: "SetValue", floor: 9})
+		},
 		Fixture: func(c *Ctx, fx *Prog) {
 			expectFixture(c, fx, "c44: wrong key, wrong type name, default out of bounds, non-member enum default, bad bounds, value function kind must be reported",
 				[]string{
